@@ -46,6 +46,28 @@ def prepare_ext(repo, name='ext'):
     return d
 
 
+def _refresh_idl_dependents(repo, target):
+    """`anchor_lang::declare_program!` reads crates/programs/idls/*.json at compile time without telling cargo, so an
+    edit of an IDL alone would leave a stale gmsol-programs in the cached target directory (measured: a layout change in
+    the IDL was not rebuilt). The IDL contents are hashed per repo path; on a change the package's fingerprints are removed,
+    which makes cargo rebuild exactly that package and its dependents."""
+    import hashlib, glob
+    h = hashlib.sha256()
+    for f in sorted(glob.glob(os.path.join(repo, 'crates', 'programs', 'idls', '*.json'))):
+        h.update(f.encode())
+        h.update(open(f, 'rb').read())
+    tag = os.path.join(target, 'idl-' + hashlib.sha256(os.path.realpath(repo).encode()).hexdigest()[:16] + '.hash')
+    cur = h.hexdigest()
+    old = open(tag).read() if os.path.exists(tag) else None
+    if old != cur:
+        if old is not None:
+            for d in glob.glob(os.path.join(target, 'kani', '*', '*', '.fingerprint', 'gmsol-programs-*')) + \
+                    glob.glob(os.path.join(target, 'kani', '*', '*', 'build', 'gmsol-programs', '*', 'fingerprint')):
+                shutil.rmtree(d, ignore_errors=True)
+        os.makedirs(target, exist_ok=True)
+        open(tag, 'w').write(cur)
+
+
 def _limit(mem_gb):
     def f():
         os.setsid()
@@ -135,6 +157,8 @@ def run_group(mode, specs, repo, tier):
         cwd = prepare_ext(repo, mode)
         env['CARGO_TARGET_DIR'] = os.path.join(BUILD, f'kani-target-{mode}')
         cmd = ['cargo', 'kani']
+        if mode == 'rel':
+            _refresh_idl_dependents(repo, env['CARGO_TARGET_DIR'])
     else:
         pkg = mode.split(':', 1)[1]
         cwd = repo
